@@ -20,7 +20,7 @@ def cacheNum : Cell → Option Int
 
 /-- python `==` on scalars: numbers by value, anything else only with itself.  (The model has no object
 identity: a `nan` cell stands for ONE NaN object, which a python dict finds again by identity.) -/
-def CellSame (a b : Cell) : Prop :=
+def CacheCellSame (a b : Cell) : Prop :=
   match cacheNum a, cacheNum b with
   | some x, some y => x = y
   | Option.none, Option.none => a = b
@@ -30,7 +30,7 @@ def CellSame (a b : Cell) : Prop :=
 dict (same keys, equal values under every key — the order of insertion is irrelevant); values of different
 container types are different. -/
 inductive SameVal : Val → Val → Prop
-  | cell {a b : Cell} : CellSame a b → SameVal (.cell a) (.cell b)
+  | cell {a b : Cell} : CacheCellSame a b → SameVal (.cell a) (.cell b)
   | list {xs ys : List Val} : xs.length = ys.length →
       (∀ (i : Nat) (x y : Val), xs[i]? = some x → ys[i]? = some y → SameVal x y) → SameVal (.list xs) (.list ys)
   | tuple {xs ys : List Val} : xs.length = ys.length →
@@ -53,13 +53,13 @@ mutual
     | (_, v) :: kvs => v.keysOk && keysOkKVs kvs
 end
 
-theorem keysOkList_mem : ∀ {xs : List Val}, keysOkList xs = true → ∀ x ∈ xs, x.keysOk = true
+theorem cacheKeysOkList_mem : ∀ {xs : List Val}, keysOkList xs = true → ∀ x ∈ xs, x.keysOk = true
   | [], _, x, hx => by simp at hx
   | y :: ys, h, x, hx => by
       simp only [keysOkList, Bool.and_eq_true] at h
       rcases List.mem_cons.1 hx with rfl | hx
       · exact h.1
-      · exact keysOkList_mem h.2 x hx
+      · exact cacheKeysOkList_mem h.2 x hx
 
 theorem keysOkKVs_mem' : ∀ {xs : List (String × Val)}, keysOkKVs xs = true → ∀ p ∈ xs, p.2.keysOk = true
   | [], _, x, hx => by simp at hx
@@ -164,8 +164,8 @@ theorem lookup_eq_of_sortK_eq (A B : List (String × Val)) (hA : (A.map (·.1)).
 
 /-! ### scalars -/
 
-theorem normCell_eq_iff (a b : Cell) : normCell a = normCell b ↔ CellSame a b := by
-  cases a <;> cases b <;> simp [normCell, CellSame, cacheNum] <;> (try split) <;> (try split) <;> omega
+theorem normCell_eq_iff (a b : Cell) : normCell a = normCell b ↔ CacheCellSame a b := by
+  cases a <;> cases b <;> simp [normCell, CacheCellSame, cacheNum] <;> (try split) <;> (try split) <;> omega
 
 /-! ### the key identifies exactly the python-equal values -/
 
@@ -218,8 +218,8 @@ theorem pyEq_of_normKey_eq : ∀ (n : Nat) (a b : Val), sizeOf a ≤ n → a.key
       simp only [List.getElem?_map, hx, hy, Option.map_some, Option.some.injEq] at hi
       have hs := getElem?_sizeOf hx
       simp only [Val.list.sizeOf_spec] at hn
-      exact pyEq_of_normKey_eq n x y (by omega) (keysOkList_mem ha x (List.mem_of_getElem? hx))
-        (keysOkList_mem hb y (List.mem_of_getElem? hy)) hi
+      exact pyEq_of_normKey_eq n x y (by omega) (cacheKeysOkList_mem ha x (List.mem_of_getElem? hx))
+        (cacheKeysOkList_mem hb y (List.mem_of_getElem? hy)) hi
   | n + 1, .tuple xs, .tuple ys, hn, ha, hb, h => by
       simp only [normKey, Val.tuple.injEq, normKeyList_eq_map] at h
       simp only [Val.keysOk] at ha hb
@@ -228,8 +228,8 @@ theorem pyEq_of_normKey_eq : ∀ (n : Nat) (a b : Val), sizeOf a ≤ n → a.key
       simp only [List.getElem?_map, hx, hy, Option.map_some, Option.some.injEq] at hi
       have hs := getElem?_sizeOf hx
       simp only [Val.tuple.sizeOf_spec] at hn
-      exact pyEq_of_normKey_eq n x y (by omega) (keysOkList_mem ha x (List.mem_of_getElem? hx))
-        (keysOkList_mem hb y (List.mem_of_getElem? hy)) hi
+      exact pyEq_of_normKey_eq n x y (by omega) (cacheKeysOkList_mem ha x (List.mem_of_getElem? hx))
+        (cacheKeysOkList_mem hb y (List.mem_of_getElem? hy)) hi
   | n + 1, .dict a, .dict b, hn, ha, hb, h => by
       simp only [normKey, Val.dict.injEq, sortKV_eq] at h
       simp only [Val.keysOk, Bool.and_eq_true, decide_eq_true_eq] at ha hb
@@ -275,8 +275,8 @@ theorem normKey_eq_of_pyEq {a b : Val} (h : SameVal a b) : a.keysOk = true → b
       have hy : ys[i]? = some ys[i] := List.getElem?_eq_getElem hi
       rw [hy]
       simp only [Option.map_some, Option.some.injEq]
-      exact ih i x ys[i] hx hy (keysOkList_mem ha x (List.mem_of_getElem? hx))
-        (keysOkList_mem hb _ (List.mem_of_getElem? hy))
+      exact ih i x ys[i] hx hy (cacheKeysOkList_mem ha x (List.mem_of_getElem? hx))
+        (cacheKeysOkList_mem hb _ (List.mem_of_getElem? hy))
   | @tuple xs ys hl _ ih =>
     intro ha hb
     simp only [Val.keysOk] at ha hb
@@ -295,8 +295,8 @@ theorem normKey_eq_of_pyEq {a b : Val} (h : SameVal a b) : a.keysOk = true → b
       have hy : ys[i]? = some ys[i] := List.getElem?_eq_getElem hi
       rw [hy]
       simp only [Option.map_some, Option.some.injEq]
-      exact ih i x ys[i] hx hy (keysOkList_mem ha x (List.mem_of_getElem? hx))
-        (keysOkList_mem hb _ (List.mem_of_getElem? hy))
+      exact ih i x ys[i] hx hy (cacheKeysOkList_mem ha x (List.mem_of_getElem? hx))
+        (cacheKeysOkList_mem hb _ (List.mem_of_getElem? hy))
   | @dict a b hs _ ih =>
     intro ha hb
     simp only [Val.keysOk, Bool.and_eq_true, decide_eq_true_eq] at ha hb
